@@ -571,10 +571,13 @@ theorem C08_gdef_roundtrip (gcT macT : Option ClassDef.Tab) (sets : Option (List
     (b : Bytes) (hb : Gdef.encode (gcT.map Gdef.mkPart) (macT.map Gdef.mkPart) sets = .ok b) :
     ∃ r, Gdef.read b = .ok r ∧ Gdef.ClassMatch gcT r.gc ∧ Gdef.ClassMatch macT r.mac ∧ r.sets = sets := by
   cases sets with
-  | none => exact Gdef.roundtrip_noSets gcT macT hg hm b hb
+  | none =>
+    obtain ⟨r, a1, a2, a3, a4, _⟩ := Gdef.roundtrip_noSets gcT macT hg hm b hb
+    exact ⟨r, a1, a2, a3, a4⟩
   | some ss =>
     obtain ⟨h1, h2, h3⟩ := hs ss rfl
-    exact Gdef.roundtrip_sets gcT macT ss hg hm h1 h2 h3 b hb
+    obtain ⟨r, a1, a2, a3, a4, _⟩ := Gdef.roundtrip_sets gcT macT ss hg hm h1 h2 h3 b hb
+    exact ⟨r, a1, a2, a3, a4⟩
 
 example : Gdef.encode (some (Gdef.mkPart [(5, 1), (6, 3)])) none (some [[7, 8]]) =
     .ok (wordsToBytes [1, 2, 14, 0, 0, 0, 24] ++ wordsToBytes [1, 5, 2, 1, 3] ++
@@ -774,6 +777,13 @@ theorem C08_info_roundtrip_nonvacuous :
     InfoA.InfoOk InfoA.gsub11Codec 7 InfoA.exInfo ∧ ∃ b, InfoA.Info.encode InfoA.gsub11Codec InfoA.exInfo = .ok b :=
   ⟨InfoA.exInfo_ok, InfoA.exInfo_encodes⟩
 
+/-- GDEF as an equation: `Read (Encode g) = nf g`, where `nf` replaces every class table by
+`ClassDef.nfTab` of it - what `Read` makes of what `Append` writes for it, i.e. the table without its
+class-0 entries (`g.Matches g.nf`: as functions glyph → class nothing changes) - and keeps the mark
+glyph sets. -/
+theorem C08_gdef_roundtrip_eq (g : InfoA.GdefV) (hg : InfoA.GdefOk g) (b : Bytes) (hb : g.encode = .ok b) :
+    Gdef.read b = .ok g.nf ∧ g.Matches g.nf := InfoA.gdef_roundtrip_eq g hg b hb
+
 /-- GDEF as one value (`InfoA.GdefV`): whenever `Encode` returns bytes for a table of the domain, `Read`
 succeeds and gives the table back (`Matches`: class tables as functions - the reader's normal form is
 the list of non-zero entries -, mark glyph sets exactly, nil as nil). -/
@@ -786,10 +796,12 @@ theorem C08_gdef_roundtrip_value (g : InfoA.GdefV) (hg : InfoA.GdefOk g) (b : By
 `InfoA.GsubSub` / `InfoA.GposSub`: a subtable as the readers return it (sum over all modelled kinds;
 contexts are types 5, 6 in GSUB and 7, 8 in GPOS).  `gsubDec` / `gposDec` are the dispatchers
 `readGsubSubtable` / `readGposSubtable`; `gsubEnc` / `gposEnc` the encoders on those shapes; the
-normal form is the identity except for GPOS value records (`Gpos.masked`).  The domain of a codec
+normal form is the identity except for GPOS value records (`Gpos.masked`) and the class tables of
+the class-based kinds (`ClassDef.nfTab`: what `Read` makes of what `Append` writes, i.e. without class-0
+entries).  The domain of a codec
 (`C.ok tp s`) is "the round trip on the exact bytes holds"; the lemmas `InfoA.gsub_ok_*` /
 `InfoA.gpos_ok_*` show it for every kind under the hypotheses of its `C08_st_roundtrip_*` theorem
-(class-based kinds: the class tables of the value in the reader's normal form). -/
+(class-based kinds: for ANY class tables with 16-bit glyph ids and classes). -/
 
 /-- "A reader only looks at a prefix": a subtable the dispatcher accepts is read the same way whatever
 follows it. -/
@@ -801,7 +813,8 @@ theorem C08_reader_prefix_only_gpos (tp : Nat) (b t : Bytes) (r : InfoA.GposSub)
 
 /-- the codec law for both codecs -/
 theorem C08_codec_law (tail : Bytes) :
-    (∀ tp s, InfoA.gsubCodec.ok tp s → InfoA.gsubDec tp (InfoA.gsubCodec.enc s ++ tail) = .ok s) ∧
+    (∀ tp s, InfoA.gsubCodec.ok tp s →
+      InfoA.gsubDec tp (InfoA.gsubCodec.enc s ++ tail) = .ok (InfoA.gsubNf s)) ∧
     (∀ tp s, InfoA.gposCodec.ok tp s →
       InfoA.gposDec tp (InfoA.gposCodec.enc s ++ tail) = .ok (InfoA.gposNf s)) :=
   ⟨fun tp s h => InfoA.gsubCodec.law tp s tail h, fun tp s h => InfoA.gposCodec.law tp s tail h⟩
